@@ -43,11 +43,15 @@ def rangeChecked (mn mx : Option Int) (v : Str) : R Int := do
 
 def portNumber (v : Str) : R Int := rangeChecked Gen.portMin Gen.portMax v
 
+/-- `v[-k:]` and `v[:-k]` for a key size `k ≥ 0`: Python's `-0` is `0`, so `k = 0` selects the whole string / nothing -/
+def sufN (v : Str) (k : Nat) : Str := if k = 0 then v else lastN v k
+def preN (v : Str) (k : Nat) : Str := if k = 0 then [] else dropLastN v k
+
 /-- `SuffixMultiplier.__call__` -/
 def suffixLoop (v : Str) (keysz : Nat) : List (Str × Int) → Option (R Int)
   | [] => none
   | (s, m) :: rest =>
-    if lastN v keysz == s then some ((integer (dropLastN v keysz)).map (· * m))
+    if sufN v keysz == s then some ((integer (preN v keysz)).map (· * m))
     else suffixLoop v keysz rest
 
 def suffixMult (tbl : List (Str × Int)) (keysz : Nat) (dflt : Int) (v0 : Str) : R Int :=
